@@ -88,10 +88,10 @@ type Config struct {
 	Fishmen          []int  `json:"fishmen,omitempty"` // actor indices
 	MaxPenalty       uint64 `json:"max_penalty,omitempty"`
 	TwoValidators    bool   `json:"two_validators,omitempty"`
-	Seed             []byte `json:"seed,omitempty"` // header AppHash = selection seed
-	BaselineZero     bool   `json:"baseline_zero,omitempty"` // Baseline = 0 (Baseline: 0 means "default 1")
+	Seed             []byte `json:"seed,omitempty"`                 // header AppHash = selection seed
+	BaselineZero     bool   `json:"baseline_zero,omitempty"`        // Baseline = 0 (Baseline: 0 means "default 1")
 	GenesisReward    int64  `json:"genesis_total_reward,omitempty"` // Pool.TotalReward of the genesis (to start near a halving)
-	FastUnbond       bool   `json:"fast_unbond,omitempty"`   // staking unbonding time 10 s (two blocks)
+	FastUnbond       bool   `json:"fast_unbond,omitempty"`          // staking unbonding time 10 s (two blocks)
 	MaxValidators    uint32 `json:"max_validators,omitempty"`
 }
 
